@@ -33,6 +33,12 @@ func (h *Handler6) StartHunt(addr packet.Addr) (packet.HuntStage, error) {
 		return packet.StageHunt, nil
 	}
 	h.huntList.Add(addr)
+	if h.loops[string(addr.MAC)] {
+		// the loop of an earlier hunt has not noticed the stop yet: it finds the mac listed again and carries on
+		h.Unlock()
+		return packet.StageHunt, nil
+	}
+	h.loops[string(addr.MAC)] = true
 	h.Unlock()
 
 	go h.spoofLoop(addr)
@@ -75,6 +81,7 @@ func (h *Handler6) spoofLoop(dstAddr packet.Addr) {
 		closeChan := h.closeChan // replaced by ProcessPacket on every RA: read it under the lock
 
 		if h.huntList.Index(dstAddr.MAC) == -1 || h.closed {
+			delete(h.loops, string(dstAddr.MAC)) // leaving: from here on StartHunt starts a new loop
 			h.Unlock()
 			Logger6.Msg("NA attack end").Struct(dstAddr).Int("repeat", nTimes).Duration("duration", time.Since(startTime)).Write()
 			return
